@@ -71,8 +71,11 @@ def c09_events(e1: int, p1: int, g1: int, d: int, v: int, kind: int, code: int, 
     with World() as w:
         k = w.kernel
         k.behaviour = BEHS[S.get('beh', 0)]
-        wa = w.mk_watcher('a', numprocesses=S.get('n0', 2), graceful_timeout=0.2)
-        w.boot([wa])
+        var = S.get('var', 'default')
+        wa = w.mk_watcher('a', **scen.variant(var, numprocesses=S.get('n0', 2), graceful_timeout=0.2))
+        w.boot([wa], check_delay=-1 if var == 'max_age' else 1.0)
+        if var == 'max_age':
+            w.run_for(1.2)              # the workers are past max_age; no periodic check runs by itself in this variant
         # the injected death carries an arbitrary wait status: exit code 0..255, or a terminating signal 1..64
         # with or without the core-dump flag (arithmetic, no bit operations: the status stays symbolic)
         if kind == 0:
@@ -90,9 +93,19 @@ def c09_events(e1: int, p1: int, g1: int, d: int, v: int, kind: int, code: int, 
             if S.get('K', 1) >= 2:
                 sc.gap(3)
                 sc.apply(e2, p2)
-            sc.settle(checks=1)
-            k.injections = [i for i in k.injections if i.get('done')]     # a death may also land in the first check after the events
-            sc.settle(checks=2)
+            if var == 'max_age':
+                w.quiesce()
+                w.check_now()
+                k.injections = [i for i in k.injections if i.get('done')]
+                wa.max_age = 0          # stop the churn so that the stream can be judged at rest
+                w.run_for(0.5)
+                w.check_now()
+                w.run_for(0.5)
+                w.check_now()
+            else:
+                sc.settle(checks=1)
+                k.injections = [i for i in k.injections if i.get('done')]     # a death may also land in the first check after the events
+                sc.settle(checks=2)
             if w.clock.tripped:
                 return rt.skip()
             spawned, gone, reaps, problems = _subscriber(w.events)
@@ -242,9 +255,13 @@ def plan(tier):
     if q:
         for e in (scen.EV_INCR, scen.EV_STOP, scen.EV_RELOAD):
             sh.append({'e1': e, 'K': 2, 'n0': 1, 'beh': 0})
+    for e in (scen.EV_RELOAD, scen.EV_RELOAD_SEQ, scen.EV_INCR):
+        sh.append({'e1': e, 'K': 1, 'n0': 2, 'beh': 0, 'var': 'send_hup', 'dmax': 6})
+    for e in (scen.EV_INCR, scen.EV_DECR, scen.EV_SETNP, scen.EV_RELOAD, scen.EV_CHECK):
+        sh.append({'e1': e, 'K': 1, 'n0': 2, 'beh': 0, 'var': 'max_age', 'dmax': 8})
     return [
         Cond('c09_events', shards=sh, budget=200 if q else 1500, twins=2,
              bounds={'e1,e2': 'S: 13-event menu (C01 menu + stop, start)', 'p1,p2': 'R[-1,2]', 'g1': 'S{now, 1 turn, quiescence}',
                      'd': 'R[0,dmax] kernel call at which a worker dies', 'kind,code,sig': 'R: every wait status a dead process can have '
-                     '(exit code R[0,255]; signal R[1,64] with and without the core flag)', 'v': 'S{0,1}'}),
+                     '(exit code R[0,255]; signal R[1,64] with and without the core flag)', 'v': 'S{0,1}', 'var': 'S: configuration variant {default, send_hup, max_age 1 s}'}),
     ]
